@@ -35,3 +35,7 @@ CLAIMS["C15"] = ("exploration",
 CLAIMS["C08"] = ("exploration",
     "Hypothesis-generated tables (1-12 columns, float relative widths, col_width 2-12 in, all header modes, 1-3 removed columns at any position, table footnote/source, multi-section) including a history dimension (body/header objects first used by a document with another column count); oracle on parsed \\cellx with an exact rational reference and 1-twip tolerance. " + _EXPL,
     _READER, "property-based testing: Hypothesis documents incl. object-reuse histories, exact-arithmetic reference for cell boundaries")
+CLAIMS["C03"] = ("exploration",
+    "Pagination-oriented Hypothesis generator (rows with line heights calibrated for the cell's own font/size, group runs sized relative to the page capacity, null/divider groups, unequal widths, reused long texts, 'tight' pages without slack) plus an exhaustive header x footnote x source x strategy x nrow sweep; validity predicate per parsed page with an independent lower-bound line weight (PIL on the bundled fonts); an excess is attributed to named contributions and only the part not explained by listed known findings is a violation. " + _EXPL,
+    _READER + " Row weight = ceil(text width / cell width) at the parsed font and size (a lower bound for any RTF viewer).",
+    "property-based testing: calibrated pagination generator + exhaustive sweep, per-page budget predicate with independent text metrics")
